@@ -13,20 +13,22 @@ import (
 
 // TreeEntry describes one entry to materialise. Paths are relative, '/'-separated.
 type TreeEntry struct {
-	Path    string
-	Type    string // dir file symlink fifo chr blk hardlink sock
-	Mode    uint32 // unix permission bits incl. 04000/02000/01000
-	UID     int
-	GID     int
-	Mtime   int64 // ns
-	Data    []byte
-	Hole    int
-	OpenErr bool
-	DirSize int
-	Link    string // symlink target, or hard-link source path (relative to the tree root)
-	Maj     uint32
-	Min     uint32
-	Xattr   [][2]string
+	Path     string
+	Type     string // dir file symlink fifo chr blk hardlink sock
+	Mode     uint32 // unix permission bits incl. 04000/02000/01000
+	UID      int
+	GID      int
+	Mtime    int64 // ns
+	Data     []byte
+	Hole     int
+	OpenErr  bool
+	DirSize  int
+	ASize    int // announced size of a regular file when HasASize (in-memory sources): the FS reports it, the readers deliver Data
+	HasASize bool
+	Link     string // symlink target, or hard-link source path (relative to the tree root)
+	Maj      uint32
+	Min      uint32
+	Xattr    [][2]string
 }
 
 func treeFromJSON(xs []interface{}) []TreeEntry {
@@ -47,6 +49,9 @@ func treeFromJSON(xs []interface{}) []TreeEntry {
 		e.OpenErr = m.boolean("openerr")
 		if e.Type == "dir" {
 			e.DirSize = m.num("size")
+		}
+		if _, ok := m["asize"]; ok {
+			e.ASize, e.HasASize = m.num("asize"), true
 		}
 		for _, kv := range m.arr("x") {
 			a := kv.([]interface{})
